@@ -207,9 +207,12 @@ def instances(decl, mode, seed, n):
         if n and len(out) > n:
             out = rnd.sample(out, n)
     else:
-        for _ in range(n):
+        for i in range(n):
             care = [p for p in pts if rnd.random() < rnd.choice([0.6, 0.9, 1.0])]
             f = [p for p in care if rnd.random() < rnd.choice([0.3, 0.6])]
+            if i % 3 == 2:
+                # predicates extending outside the care set (and the type hints)
+                f = [p for p in pts if rnd.random() < rnd.choice([0.2, 0.5])]
             if f and care and not (len(f) == len(pts)):
                 out.append((f, care))
     return ref, out
